@@ -161,6 +161,29 @@ def discharge_vac(obls, specs, ip, seed):
     discharge(obls, None, None, tier='quick', seed=seed, timeout=5)
 
 
+def crashed_in_repo(stderr, repo_root):
+    """when a stand-in process died with a traceback: did the exception come out of the code under test (innermost non-library frame
+    inside the repository's sources) rather than out of the harness?  Returns 'Exc: message (file:line in function)' or None.
+    An exception that names a harness object (a fake socket lacking a method the code now calls, ...) is the harness's problem."""
+    stderr = stderr or ''
+    if 'RemoteTraceback' in stderr and 'The above exception was the direct cause' in stderr:
+        # raised in a pool worker: the worker's own traceback comes first (quoted), the parent's re-raise after it
+        stderr = stderr.split('The above exception was the direct cause')[0].replace('"""', '').strip()
+    frames = re.findall(r'File "([^"]+)", line (\d+), in (\S+)', stderr)
+    own = [f for f in frames if not re.search(r'/lib/python3\.\d+/', f[0]) or '/site-packages/ssh_audit' in f[0]]
+    if not own:
+        return None
+    last = own[-1]
+    src = os.path.join(os.path.realpath(repo_root), 'src')
+    if not os.path.realpath(last[0]).startswith(src):
+        return None
+    lines = [l for l in stderr.strip().splitlines() if l and not l.startswith((' ', '\t'))]
+    exc = lines[-1] if lines else ''
+    if re.search(r'Fake|fakenet|harness|Peer\b|ServerSocket|MagicMock', exc) or exc.startswith(('KeyboardInterrupt', 'MemoryError')):
+        return None
+    return '%s (%s:%s in %s)' % (exc[:300], os.path.relpath(last[0], repo_root), last[1], last[2])
+
+
 def native_bounded(runner, name, clause, code, bound, func):
     """bounded stand-in (never counted as proved): run-time check of a contract clause on the REAL function over an
     enumerated domain, in a fresh CPython process.  `code` must print one JSON object {cases, failures:[{input, got, want}]}."""
@@ -169,9 +192,20 @@ def native_bounded(runner, name, clause, code, bound, func):
     env['VERIF_TIER'] = runner.tier
     try:
         p = subprocess.run([NATIVE_PY, '-c', code], capture_output=True, text=True, timeout=1200, env=env)
-        res = json.loads(p.stdout.strip().splitlines()[-1])
     except Exception as e:
         return {'undecided': (name, 'bounded stand-in could not run: %r' % (e,))}
+    try:
+        res = json.loads(p.stdout.strip().splitlines()[-1])
+    except Exception as e:
+        crash = crashed_in_repo(p.stderr, runner.repo.root)
+        if crash is None:
+            return {'undecided': (name, 'bounded stand-in could not run: %r; %s' % (e, p.stderr.strip()[-300:]))}
+        # the real code raised, on an input of the family on which the clause speaks about its result: that is a failed clause (the
+        # input is not identified: the exception escaped the per-case bookkeeping), not a checker problem
+        rp = runner.write_replay('bounded:%s.crash' % name, clause, 'bounded', None, None, p.stderr[-4000:], extra={'escaped_exception': crash})
+        return {'bounded': {'function': func, 'clause': clause, 'bound': bound, 'cases': 0, 'failures': 1}, 'samples': [],
+                'violations': [Violation('bounded:' + name, clause, func, inputs=None, replay=rp, reproduced=False,
+                                         detail='the code under contract raised on an input of the enumerated family: %s' % crash, kind='bounded')]}
     out = {'bounded': {'function': func, 'clause': clause, 'bound': bound, 'cases': res['cases'], 'failures': len(res['failures'])},
            'samples': [{'bounded-stand-in': name, 'cases': res['cases'], 'bound': bound}]}
     out['violations'] = []
